@@ -93,6 +93,9 @@ func selectorData() []namedNode {
 		{`{"":[4,5],a:{"":1}}`, nMap(kv{"", nList(nInt(4), nInt(5))}, kv{"a", nMap(kv{"", nInt(1)})})},
 		{"{b:[{a:1}]}", nMap(kv{"b", nList(nMap(kv{"a", nInt(1)}))})},
 		{"{a:{x:[1,2]}}", nMap(kv{"a", nMap(kv{"x", nList(nInt(1), nInt(2))})})},
+		// keys with blanks next to the keys one gets by removing them
+		{`{"a b":1,ab:2," ":3,"":4}`, nMap(kv{"a b", nInt(1)}, kv{"ab", nInt(2)}, kv{" ", nInt(3)}, kv{"", nInt(4)})},
+		{`{ab:2,"":4,a:{"a b":[5]}}`, nMap(kv{"ab", nInt(2)}, kv{"", nInt(4)}, kv{"a", nMap(kv{"a b", nList(nInt(5))})})},
 		// maps whose keys read like indexes: an index segment applies to lists and bytes only
 		{`{"0":7,"1":8,"-1":9,"5":6}`, nMap(kv{"0", nInt(7)}, kv{"1", nInt(8)}, kv{"-1", nInt(9)}, kv{"5", nInt(6)})},
 		{`{a:{"0":[1,2],"-1":3}}`, nMap(kv{"a", nMap(kv{"0", nList(nInt(1), nInt(2))}, kv{"-1", nInt(3)})})},
